@@ -10,7 +10,7 @@ TITLE = 'Client transactions end in bounded time with a result and recover'
 QUICK_S = 45
 THOROUGH_S = 600
 RULE = ('one caller, one real synchronous client (TCP, UDP, serial rtu/ascii/binary, framer-over-TCP); per transmission '
-        'attempt the scripted peer does one of {reply, exception, nothing, k of n bytes, garbage, wrong unit, wrong tid, stale '
+        'attempt the scripted peer does one of {reply, exception, nothing, k of n bytes, garbage, checksum-valid frame with a PDU cut short, wrong unit, wrong tid, stale '
         'frame first, late reply after the timeout, duplicate, reset, close, or the correct reply slowly (late start, TCP: 2-5 '
         'segments spread over <= 0.85 x timeout)}; retries 0-3 x retry_on_empty x '
         'retry_on_invalid x backoff; systematic part: every script of length <= 2 over the alphabet for every client kind; '
@@ -26,7 +26,7 @@ ASSUMPTIONS = ['connection refusal may raise ConnectionException (excepted by th
 STUBS = cc.STUBS
 
 ALPHABET = ['reply', 'exception', 'nothing', 'partial', 'garbage', 'wrong_unit', 'wrong_tid', 'stale_first', 'late',
-            'dup', 'reset', 'close']
+            'dup', 'reset', 'close', 'undecodable']
 KINDS = [('tcp', 'tcp'), ('udp', 'tcp'), ('serial', 'rtu'), ('serial', 'ascii'), ('serial', 'binary'), ('tcp', 'rtu')]
 
 
@@ -40,6 +40,14 @@ def attempt(act, rng, framing, op, timeout, gen, kind=None):
     elif act == 'garbage':
         n = 3 if rng is None else rng.choice([1, 2, 5, 9, 20])
         a['hex'] = bytes(((i * 37 + 11) & 0xFF) if rng is None else rng.randrange(256) for i in range(n)).hex()
+    elif act == 'undecodable':
+        # a frame for this unit with a VALID checksum whose PDU is cut short inside its own fields
+        # (a byte count that promises more than follows, an echo without its value, a bare function code)
+        fc = cli.request_pdu(op)[0]
+        pool = [bytes([fc, 6, 0]), bytes([fc, 0]), bytes([fc])]
+        bad = pool[0] if rng is None else rng.choice(pool)
+        a['act'] = 'garbage'
+        a['hex'] = codec.frame(framing, op['unit'], bad, tid=1).hex()
     elif act == 'stale_first':
         other = gen.op(fn='read_holding_registers', unit=op['unit'], exc_rate=0.0, maxn=3)
         a['hex'] = codec.frame(framing, op['unit'], cli.reply_pdu(other), tid=9).hex()
@@ -214,7 +222,12 @@ def execute(scn):
             j = len(body)
             empties = all(a in ('nothing',) for a in body)
             invalids = all(a in ('wrong_unit',) for a in body) and j > 0
-            if slow_end and j == 0 and not cc.leftover_input(res, call) and kind in ('tcp', 'serial'):
+            # (judged on a client without fault history: a reset by the peer is only discovered by the next
+            # transaction that uses the connection, which is the business of the follow-up clause)
+            clean = all(not o.get('script') for o in ops[:call['index']])
+            if not clean:
+                pass
+            elif slow_end and j == 0 and not cc.leftover_input(res, call) and kind in ('tcp', 'serial'):
                 ok, why = cc.values_match(op, r)
                 if not ok:
                     add('timely-reply-rejected', 'call %d: the correct reply arrived slowly (start after %.3f s, %d segments %.3f s apart) '
